@@ -163,6 +163,50 @@ func vpT_C01_depth2() {
 	vpReach("end")
 }
 
+// an embedded object that has neither id nor type and exactly one populated property
+func vpH_C01_embedded_bare() {
+	oi := vpTypeIndex("Object")
+	ofields := vpFieldsOf(oi)
+	f := 2 + vpChoice(len(ofields)-2)
+	n := vpShapes(ofields[f].Kind)
+	if n == 0 {
+		vpReach("end")
+		return
+	}
+	inner := &Object{}
+	vpSetField(inner, f, 0, 'a')
+	want := vpCloneItem(inner)
+	vpC01Normal(want, oi, f)
+	x := &Object{ID: vpMkIRI('i'), Type: NoteType}
+	asMember := vpBool()
+	if asMember {
+		x.Tag = ItemCollection{vpMkIRI('t'), inner}
+	} else {
+		x.InReplyTo = inner
+	}
+	cell := "Object." + ofields[f].Name
+	b, err := x.MarshalJSON()
+	vpAssert("bare/encode/"+cell, err == nil && len(b) > 0)
+	y, err := UnmarshalJSON(b)
+	vpAssert("bare/decode/"+cell, err == nil && y != nil)
+	if o, ok := y.(*Object); ok {
+		var got Item
+		if asMember {
+			vpAssert("bare/member-kept/"+cell, len(o.Tag) == 2)
+			if len(o.Tag) == 2 {
+				got = o.Tag[1]
+			}
+		} else {
+			got = o.InReplyTo
+		}
+		vpAssert("bare/embedded-kept/"+cell, got != nil)
+		if got != nil {
+			vpDiffItems("bare/roundtrip/"+cell, want, got, nil)
+		}
+	}
+	vpReach("end")
+}
+
 // the per-type UnmarshalJSON methods agree with the package-level decoder
 func vpH_C01_methods() {
 	ti := vpChoice(len(vpTypeNames))
